@@ -137,4 +137,18 @@ func VerifHarness_C33_layout() {
 	verifrt.Assert(util.RemoveAll(commonDir, path) == nil, "c33-remove")
 	verifrt.Assert(!common.Has(md+"HEAD") && !common.Has("worktrees/"+name), "c33-remove")
 	verifrt.Assert(common.Has("worktrees/other/HEAD") && common.Has("HEAD") && common.Has("config"), "c33-remove-isolation")
+
+	// The leftover worktree directory still has its .git file. Opening it must
+	// never fall back to a plain repository over the common directory (nil =
+	// "not a linked worktree" in Open): it stays a linked-worktree view whose
+	// per-worktree half is the (now missing) metadata directory, so it fails
+	// instead of operating on the main worktree's HEAD and index (added after
+	// seed C33-1).
+	dfs2 := w.getDualFS(wt)
+	verifrt.Assert(dfs2 != nil, "c33-removed-worktree-is-not-opened-as-main")
+	if dfs2 != nil {
+		verifrt.Assert(dfs2.Root() == "/worktrees/"+name, "c33-removed-worktree-is-not-opened-as-main")
+		_, err = dfs2.Stat("HEAD")
+		verifrt.Assert(err != nil, "c33-removed-worktree-has-no-head")
+	}
 }
